@@ -511,8 +511,12 @@ def work_ack(item):
                 rp = dict(kind="ack", ranges=[list(r) for r in ranges], delay=delay)
                 ref = enc_ack_with_fields(ranges, delay)
                 buf = Buffer(capacity=256)
-                n = P.push_ack_frame(buf, RangeSet([range(a, b) for a, b in ranges]), delay)
+                n = _try(P.push_ack_frame, buf, RangeSet([range(a, b) for a, b in ranges]), delay)
                 got = buf.data
+                if isinstance(n, str):
+                    differ(acc, "undocumented_exception", ACK.push_name, "push_ack_frame(%r, delay=%d) raised %s" % (ranges, delay, n),
+                           rp, len(ranges), exc=n.split(":")[0])
+                    continue
                 if got != ref:
                     differ(acc, "encoder_differs_from_reference", ACK.push_name,
                            "push_ack_frame(%r, delay=%d) = %s, reference %s" % (ranges, delay, got.hex(), bytes(ref).hex()),
@@ -536,7 +540,7 @@ def work_ack(item):
 def items_ack(ctx):
     masks = list(range(1, 1024))
     if ctx.tier == "quick":
-        arb = {0: (0, 64), ACK_BASES[1]: (64,), ACK_BASES[2]: ()}
+        arb = {0: tuple(VARINT_BOUNDS), ACK_BASES[1]: (0, 64, 16384), ACK_BASES[2]: (64, (1 << 62) - 1)}
         extra = [(b, d) for b in ACK_BASES for d in VARINT_BOUNDS]
         eb, ed = extra[ctx.seed % len(extra)]
     else:
@@ -685,16 +689,12 @@ def long_case(acc, ver, ptype, dl, sl, tl, length, pn, arb, window=24):
     rank = dl + sl + tl + length
     got = _try(HDR.pull, Buffer(data=dgram))
     if over:
-        # the builder writes Length with push_uint16(length | 0x4000): outside what that field holds
+        # the builder writes Length with push_uint16(length | 0x4000).  Not judged: the real CryptoPair refuses any
+        # packet above 1500 bytes (_crypto.c PACKET_LENGTH_MAX), so such a packet cannot leave the real builder.
         ok = got == value
         key = "header:length_over_16383:%s" % ("roundtrip_ok" if ok else "silently_corrupt")
         acc.notes[key] += 1
         acc.example(key, "%r: header %s..., pull -> %r" % (rp, header[-6:].hex(), got if isinstance(got, str) else got[2]))
-        if not ok:
-            differ(acc, "roundtrip", "QuicPacketBuilder",
-                   "packet with Length %d (> 16383): builder wrote Length bytes %s, pull_quic_header gives packet_length %r "
-                   "instead of %d" % (length, header[-4:-2].hex(), got if isinstance(got, str) else got[2], len(dgram)),
-                   rp, rank, input="length_over_2_byte_varint")
         return
     if header != ref:
         differ(acc, "encoder_differs_from_reference", "QuicPacketBuilder",
@@ -789,6 +789,17 @@ def vn_case(acc, dl, sl, nv, arb):
 ARB_PAIRS = [(0, 0), (0, 20), (20, 0), (20, 20), (8, 8), (1, 1), (5, 0), (0, 5), (19, 20)]
 
 
+def _guard(acc, fn, *a, **kw):
+    """An exception escaping an aioquic encoder/decoder on a *valid* case is a finding, not a harness error."""
+    try:
+        fn(acc, *a, **kw)
+    except (core.HarnessError, NoEncoder):
+        raise
+    except Exception as e:  # noqa
+        differ(acc, "undocumented_exception", innermost(e), "%s%r: %s: %s" % (fn.__name__, a, type(e).__name__, e),
+               dict(kind="guard", fn=fn.__name__, args=jenc(list(a) + list(kw.values()))), 0, exc=type(e).__name__)
+
+
 def work_headers(item):
     acc = Acc()
     kind = item[0]
@@ -802,31 +813,31 @@ def work_headers(item):
                 for tl in (TOKEN_LENS if ptype == "INITIAL" else [0]):
                     for length in LENGTHS + (LENGTHS_OVER if pair else []):
                         k += 1
-                        arb = (length == 20 and tl <= 1) or (pair and (thorough or length in (20, 64, 16383)))
+                        arb = (length in (20, 64) and tl <= 1) or pair or (thorough and tl <= 64)
                         if tl == 16383 and not (pair and (dl, sl) in ARB_PAIRS[:4 if thorough else 2]):
                             arb = False
-                        long_case(acc, ver, ptype, dl, sl, tl, length, PNS[k % len(PNS)], arb)
+                        _guard(acc, long_case, ver, ptype, dl, sl, tl, length, PNS[k % len(PNS)], arb)
     elif kind == "short":
         for dl in range(21):
             for spin in (0, 1):
                 for kp in (0, 1):
                     for payload in (2, 3, 63, 64, 1200):
-                        short_case(acc, dl, spin, kp, payload, PNS[(dl + payload) % len(PNS)], arb=payload in (2, 64) or thorough)
+                        _guard(acc, short_case, dl, spin, kp, payload, PNS[(dl + payload) % len(PNS)], arb=payload in (2, 64) or thorough)
     elif kind == "retry":
         _, ver, dl = item[:3]
         for sl in range(21):
-            retry_case(acc, ver, dl, sl, 8, 1, 0, arb=True)
+            _guard(acc, retry_case, ver, dl, sl, 8, 1, 0, arb=True)
             if (dl, sl) in ARB_PAIRS:
                 for tl in TOKEN_LENS:
                     for ol in range(21):
                         for unused in (0, 0x0F):
-                            retry_case(acc, ver, dl, sl, ol, tl, unused,
+                            _guard(acc, retry_case, ver, dl, sl, ol, tl, unused,
                                        arb=(ol in (0, 8, 20) and unused == 0 and (tl < 16383 or (dl, sl) in ARB_PAIRS[:2] or thorough)))
     elif kind == "vn":
         dl = item[1]
         for sl in range(21):
             for nv in range(5):
-                vn_case(acc, dl, sl, nv, arb=True)
+                _guard(acc, vn_case, dl, sl, nv, arb=True)
     return acc
 
 
@@ -992,8 +1003,14 @@ def tp_cases(tier, seed):
             for vb in rep(b):
                 pairs.append(([(a, va), (b, vb)], False, None))
     for i, c in enumerate(pairs):
-        arb = tier == "thorough" or i % 9 == 0 or i % 9 == (1 + seed % 8)
+        arb = True
         cases.append((c[0], arb, None))
+    if tier == "thorough":
+        for a, b, c in itertools.combinations(TP_IDS, 3):
+            for va in (vs[a][0], vs[a][-1]):
+                for vb in (vs[b][0], vs[b][-1]):
+                    for vc in (vs[c][0], vs[c][-1]):
+                        cases.append(([(a, va), (b, vb), (c, vc)], True, None))
     # full set: every integer at the same boundary, x preferred address x version information
     for bi in range(len(VARINT_BOUNDS)):
         for pa_i, pa in enumerate(vs[0x0D]):
@@ -1011,7 +1028,7 @@ def tp_cases(tier, seed):
                         items.append((pid, vi))
                     else:
                         items.append((pid, vs[pid][min(bi % 4, len(vs[pid]) - 1)]))
-                arb = pa_i in (0, 11) and vi_i in (0, 3) and (tier == "thorough" or bi in (0, 3, 8))
+                arb = tier == "thorough" or (pa_i in (0, 11) and vi_i in (0, 3))
                 cases.append((items, arb, None))
     # unknown ids interleaved (decoding): every position x id kind x body size, on a 3-parameter base
     base = [(0x01, 30000), (0x0C, True), (0x0F, cid(8, 0x77))]
@@ -1029,7 +1046,7 @@ def work_tp(item):
     acc = Acc()
     tier, seed, lo, hi = item
     for items, arb, unknown in tp_cases(tier, seed)[lo:hi]:
-        tp_case(acc, items, arb, unknown)
+        _guard(acc, tp_case, items, arb, unknown)
     return acc
 
 
@@ -1203,6 +1220,8 @@ def ch_cases(tier, seed):
                 elif on:
                     o[n] = {"psk_modes": 1, "sni": 11, "alpn": 1, "early_data": True, "psk": 1}[n]
             out.append((o, (mask & 15) == 15, True))
+            if tier == "thorough" or (mask * 2 + other) % 4 == seed % 4:
+                out.append((dict(o, order="reversed"), False, True))
     # (b) one-at-a-time variations on the full and on the minimal message
     var = ch_variations()
     for base in (CH_FULL, {}):
@@ -1214,7 +1233,7 @@ def ch_cases(tier, seed):
                 out.append((o, True, True))
     # (c) pairs of variations on the full message (thorough: all; quick: a seed-selected slice)
     pairs = [(a, b) for a, b in itertools.combinations(var, 2) if a[0] != b[0]]
-    nsl = 12
+    nsl = 2
     for i, (a, b) in enumerate(pairs):
         if tier == "thorough" or i % nsl == seed % nsl:
             o = dict(CH_FULL)
@@ -1382,10 +1401,10 @@ def work_tls(item):
     kind, tier, seed, lo, hi = item
     if kind == "CH":
         for o, pushable, arb in ch_cases(tier, seed)[lo:hi]:
-            tls_case(acc, ch_msg(o), pushable, arb, origin="CH %r" % (o,))
+            _guard(acc, tls_case, ch_msg(o), pushable, arb, "CH %r" % (o,))
     else:
         for msg, pushable in simple_cases(kind)[lo:hi]:
-            tls_case(acc, msg, pushable, True, origin=kind)
+            _guard(acc, tls_case, msg, pushable, True, kind)
     return acc
 
 
@@ -1400,3 +1419,227 @@ def items_tls(ctx):
         for lo in range(0, n, step):
             items.append((t, ctx.tier, ctx.seed, lo, min(n, lo + step)))
     return items
+
+
+# ===================================================================== part: captured fixtures
+def work_fixtures(item):
+    acc = Acc()
+    d = os.path.join(build.REPO, "tests")
+    for name in sorted(os.listdir(d)):
+        if not (name.startswith("tls_") and name.endswith(".bin")):
+            continue
+        with open(os.path.join(d, name), "rb") as f:
+            data = f.read()
+        msg = R.dec_handshake(data)
+        cd = TLS[msg["type"]]
+        acc.cases[cd.name + ":fixture"] += 1
+        enc = R.enc_handshake(dict(msg, extensions=[(t, raw) for t, raw, _ in msg.get("extensions", [])]))
+        if enc != data:
+            raise core.HarnessError("reference codec does not reproduce %s" % name)
+        v = judge_bytes(acc, cd, data, origin="fixture " + name)
+        try:
+            view = tls_view(msg)
+        except NotInView:
+            view = None
+        if view is not None:
+            acc.value(cd.name, view)
+            if v != view:
+                differ(acc, "decoder_differs_from_reference", cd.name, "%s(%s) = %r, reference %r" % (cd.name, name, v, view),
+                       dict(kind="fixture", name=name), len(data))
+        arbitrary(acc, cd, enc, origin="fixture " + name)
+    return acc
+
+
+# ===================================================================== main
+PARTS = [
+    ("ints", items_ints, work_ints),
+    ("ack", items_ack, work_ack),
+    ("headers", items_headers, work_headers),
+    ("tparams", items_tp, work_tp),
+    ("tls", items_tls, work_tls),
+    ("fixtures", lambda ctx: [("all",)], work_fixtures),
+]
+
+GRAMMAR = {
+    "ints": "values within +-2 of 0,2^6,2^7,2^8,2^14,2^16,2^30,2^32,2^62,2^64 and every 2^k (k<=64) through push/pull_uint8/16/32/64/_var, "
+            "encode_uint_var, size_uint_var, every permitted varint size; all 65536 two-byte strings; 256 first bytes x lengths 0..8 x 3 fills",
+    "ack": "1023 non-empty subsets of {0..9} x base {0,2^14-5,2^30-5} x 9 delays at varint boundaries; lies on range count / first range / "
+           "gaps / range lengths and every prefix",
+    "headers": "v1,v2 x Initial/0-RTT/Handshake through QuicPacketBuilder (identity crypto) x 441 DCID/SCID length pairs x token "
+               "{0,1,63,64,16383} x Length {20,63,64,65,16382,16383} (+16384,16385,32768 on 9 pairs); short x DCID 0..20 x spin x key phase x 5 "
+               "payload sizes; Retry x 441 pairs + 9 pairs x 5 tokens x ODCID 0..20 x unused bits; VN x 441 pairs x 0..4 versions",
+    "tparams": "empty, every parameter alone at every boundary value, all 190 pairs x 3x3 representative values, (thorough: all 1140 triples x 2x2x2 values), full set x 9 integer "
+               "boundaries x preferred_address(v4,v6 present/absent, cid 0/1/20) x version_information lists 0..3; 6 unknown ids x 4 positions x 3 sizes",
+    "tls": "ClientHello: all 512 subsets of 9 structured extensions x {0,1} unknown (thorough: also each in reversed order), one-at-a-time list sizes {0,1,3} and opaque sizes "
+           "{0,1,255,256} on full and minimal message, pairs of variations; 7 other messages: all extension subsets x unknown 0/1/3 x "
+           "opaque sizes; non-ASCII / multi-name / reordered well-formed inputs",
+    "fixtures": "the 16 captured messages in tests/tls_*.bin",
+}
+
+
+def _dispatch(x):
+    import time
+
+    t = time.process_time()
+    for name, _, work in PARTS:
+        if name == x[0]:
+            return work(x[1]), time.process_time() - t
+    raise KeyError(x[0])
+
+
+def run(ctx):
+    try:
+        R.selftest()
+    except AssertionError as e:
+        raise core.HarnessError("reference codec fails the RFC test vectors: %r" % (e,))
+    total = Acc()
+    per_codec = {}
+    # one pool for all parts (work items are independent); heavier parts first
+    works = {name: work for name, _, work in PARTS}
+    todo = []
+    for name, mkitems, work in PARTS:
+        if ctx.only_parts and name not in ctx.only_parts:
+            continue
+        todo += [(name, it) for it in mkitems(ctx)]
+    order = {"tls": 0, "headers": 1, "tparams": 2, "ack": 3, "ints": 4, "fixtures": 5}
+    todo.sort(key=lambda x: order[x[0]])
+    results = core.pmap(_dispatch, todo)
+    for name, mkitems, work in PARTS:
+        if ctx.only_parts and name not in ctx.only_parts:
+            continue
+        t0 = ctx.elapsed()
+        acc = Acc()
+        items = [it for n, it in todo if n == name]
+        secs = 0.0
+        for (n, it), (a, dt) in zip(todo, results):
+            if n == name:
+                acc.merge(a)
+                secs += dt
+        ncases = sum(acc.cases.values())
+        ninputs = sum(acc.inputs.values())
+        ndist = sum(len(s) for s in acc.values.values())
+        ctx.part(name, evaluations=ncases + ninputs, distinct_nontrivial=ndist, cases=ncases, arbitrary_inputs=ninputs,
+                 work_items=len(items), outcomes=len(acc.outcomes), cpu_seconds=round(secs, 1), grammar=GRAMMAR[name])
+        if len(acc.outcomes) < 3:
+            raise core.HarnessError("part %s: vacuous (%d distinct outcomes)" % (name, len(acc.outcomes)))
+        ctx.cov["parts"][name]["per_codec"] = {
+            k: dict(cases=acc.cases.get(k, 0), inputs=acc.inputs.get(k, 0), distinct_values=len(acc.values.get(k, ())))
+            for k in sorted(set(acc.cases) | set(acc.inputs) | set(acc.values))
+        }
+        ctx.cov["parts"][name]["outcome_counts"] = dict(sorted(acc.outcomes.items()))
+        ctx.cov["parts"][name]["not_judged"] = dict(sorted(acc.notes.items()))
+        ctx.cov["parts"][name]["not_judged_examples"] = acc.examples
+        for rank, sig, what, replay in sorted(acc.viol.values(), key=lambda v: (v[0], core.stable_hash(v[1]))):
+            ctx.violation(dict(sig, part=name), what, replay)
+        total.merge(acc)
+    for k in sorted(set(total.cases) | set(total.inputs)):
+        per_codec[k] = (total.cases.get(k, 0), total.inputs.get(k, 0), len(total.values.get(k, ())))
+    print("[C17] per codec (valid cases, arbitrary byte strings, distinct values):")
+    for k, v in per_codec.items():
+        print("        %-52s %7d %8d %7d" % ((k,) + v))
+    ctx.sample({"ack": "ranges [(3,5),(7,8)] delay 64 -> " + bytes(R.enc_ack([(3, 5), (7, 8)], 64)).hex()})
+    ctx.sample({"tls": "ServerHello length lie: extension_length 2->0 of supported_versions"})
+    ctx.cov["rule"] = (
+        "exhaustive enumeration of the finite grammars listed per part on the real codec functions; each value: pull(push(v))==v, "
+        "push(v) byte-identical to vlib.refcodec, pull(reference encoding)==v; each arbitrary byte string (every length field x "
+        "{0,1,true-1,true+1,max}, every prefix): documented parse error or a value that survives push+pull; strict nested-length "
+        "reference + read trace decide 'read past a declared length'"
+    )
+    ctx.cov["exhaustive"] = not ctx.caps_hit and not ctx.only_parts
+    ctx.cov["bounds"] = dict(tier=ctx.tier, prefix_rule="every prefix; encodings > 96 (headers, transport parameters) / 3000 (TLS) bytes: "
+                             "all cut points within 24 / 16 bytes of every field boundary")
+    ctx.assumptions += [
+        "header bytes are obtained from QuicPacketBuilder with an identity CryptoPair stand-in (there is no standalone header encoder)",
+        "extension order is the encoder's choice: the reference is asked for aioquic's order when bytes are compared, other orders are decode-only",
+        "the unused bits of a Version Negotiation first byte are random and excluded from the byte comparison",
+        "out-of-domain integers (negative, >= 2^width) are recorded under not_judged; so is Length > 16383 in the packet builder (silently corrupt with the identity crypto stand-in, but the real CryptoPair rejects packets above 1500 bytes, so it is unreachable)",
+        "ACK frames with a range below packet number 0 are accepted by pull_ack_frame and re-encode to the same bytes: RFC 9000 19.3.1 "
+        "demands FRAME_ENCODING_ERROR, the property does not; counted as lenient_accept:semantic",
+    ]
+
+
+# ===================================================================== replay
+def _codec_by_name(name, params):
+    if name == ACK.name:
+        return ACK
+    if name == HDR.name:
+        return HeaderCodec(params.get("host_cid_length"))
+    if name == TP.name:
+        return TP
+    return TLS[params["msg"]]
+
+
+def replay(ctx, obj):
+    rp = obj["replay"]
+    acc = Acc()
+    kind = rp["kind"]
+    print("replaying %s case: %s" % (kind, {k: v for k, v in rp.items() if k not in ("data", "base")}))
+    if kind == "bytes":
+        cd = _codec_by_name(rp["codec"], rp.get("params") or {})
+        data = bytes.fromhex(rp["data"])
+        base = None if rp.get("base") is None else bytes.fromhex(rp["base"])
+        lie = None
+        if rp.get("lie"):
+            pos, size, val, lv = rp["lie"]
+            lie = (dict(pos=pos, size=size, value=val, name="?"), lv)
+        print("  input (%d bytes): %s" % (len(data), data.hex()))
+        try:
+            v = cd.pull(Buffer(data=data))
+            print("  %s -> %r" % (cd.name, v))
+            try:
+                again = cd.push(v)
+                print("  %s -> %s" % (cd.push_name, again.hex()))
+                print("  %s again -> %r" % (cd.name, _try(cd.pull, Buffer(data=again))))
+            except Exception as e:  # noqa
+                print("  %s raised %s: %s" % (cd.push_name, type(e).__name__, e))
+        except Exception as e:  # noqa
+            print("  %s raised %s: %s (innermost %s)" % (cd.name, type(e).__name__, e, innermost(e)))
+        try:
+            print("  reference -> %r" % (cd.refdec(data),))
+        except R.RefReject as e:
+            print("  reference rejects: %s (window %r)" % (e, e.window))
+        judge_bytes(acc, cd, data, base=base, lie=lie, origin=rp.get("origin", ""))
+    elif kind == "int":
+        v = rp["value"]
+        for bits, (pushn, pulln) in FIXED.items():
+            _int_case(acc, pushn, pulln, v, 0 <= v < (1 << bits), lambda: R.enc_uint(v, bits // 8))
+        _int_case(acc, "push_uint_var", "pull_uint_var", v, 0 <= v <= R.VARINT_MAX, lambda: R.enc_varint(v))
+        acc.merge(work_ints(("values",)))
+    elif kind == "varint_bytes":
+        _varint_bytes(acc, bytes.fromhex(rp["data"]))
+        acc.merge(work_ints(("values",)))
+    elif kind == "ack":
+        ranges = tuple(tuple(r) for r in rp["ranges"])
+        base = min(ACK_BASES, key=lambda b: abs(ranges[0][0] - b) if ranges[0][0] >= b else 1 << 70)
+        mask = 0
+        for a, b in ranges:
+            for x in range(a, b):
+                mask |= 1 << (x - base)
+        acc.merge(work_ack(([mask], [base], [rp["delay"]], (rp["delay"],))))
+    elif kind == "long":
+        long_case(acc, rp["ver"], rp["ptype"], rp["dl"], rp["sl"], rp["tl"], rp["length"], rp["pn"], True)
+    elif kind == "short":
+        short_case(acc, rp["dl"], rp["spin"], rp["kp"], rp["payload"], rp["pn"], True)
+    elif kind == "retry":
+        retry_case(acc, rp["ver"], rp["dl"], rp["sl"], rp["ol"], rp["tl"], rp["unused"], True)
+    elif kind == "vn":
+        vn_case(acc, rp["dl"], rp["sl"], rp["nv"], True)
+    elif kind == "tp":
+        tp_case(acc, jdec(rp["items"]), True, jdec(rp["unknown"]))
+    elif kind == "tls":
+        tls_case(acc, jdec(rp["msg"]), rp["pushable"], True)
+    elif kind == "fixture":
+        acc.merge(work_fixtures(("all",)))
+    elif kind == "guard":
+        _guard(acc, globals()[rp["fn"]], *jdec(rp["args"]))
+    want = core.stable_hash({k: v for k, v in obj["signature"].items() if k != "part"})
+    hit = 0
+    for k, (rank, sig, what, _) in sorted(acc.viol.items()):
+        mark = "*" if k == want else " "
+        print(" %s VIOLATION %s\n     %s" % (mark, core.jdump(sig, sort_keys=True), what[:1500]))
+        hit |= k == want
+    if hit:
+        print("VIOLATION property=C17 replay=(replayed)")
+        return 1
+    print("the recorded violation does not reproduce" + (" (others do)" if acc.viol else ""))
+    return 0
